@@ -193,7 +193,7 @@ impl<'c, Q: Queue> Interp<'c, Q> {
                     || (matches!(op, "extend" | "append" | "from_vec" | "from_iter" | "convert" | "ctor")
                         && g != Group::Tables)
             }
-            8 => matches!(op, "retain" | "retain_mut" | "iter_mut" | "pop_if") && !matches!(g, Group::Tables | Group::IterMutContract),
+            8 => (matches!(op, "retain" | "retain_mut" | "iter_mut" | "pop_if") && !matches!(g, Group::Tables | Group::IterMutContract)) || (op == "adaptor_iter_mut" && matches!(g, Group::Alias | Group::Panic)),
             9 => matches!(g, Group::Alias | Group::IterMutContract) || (g == Group::Panic && matches!(op, "iter_mut" | "adaptor_iter_mut")),
             11 => matches!(op, "push_increase" | "push_decrease") && g != Group::Tables,
             12 => g == Group::Tag,
